@@ -114,6 +114,8 @@ class Polynomial(BasePolynomial):
     """
     def __init__(self, r, r_min, r_max, c, r_0=0.0, s=1.0, reduced=False):
         n = r.shape[0]
+        # (NumPy integers would overflow silently in the powers below)
+        r_min, r_max, r_0, s = float(r_min), float(r_max), float(r_0), float(s)
 
         # trim negative r limits
         if r_max <= 0:
@@ -315,6 +317,8 @@ class SPolynomial(BasePolynomial):
     def __init__(self, r, cos, r_min, r_max, c, r_0=0.0, s=1.0):
         if r.shape != cos.shape:
             raise ValueError('Shapes of r and cos arrays must be equal.')
+        # (NumPy integers would overflow silently in the powers below)
+        r_min, r_max, r_0, s = float(r_min), float(r_max), float(r_0), float(s)
 
         # trim negative r limits
         if r_max <= 0:
